@@ -4,6 +4,7 @@
   and the comparison of two fan-outs with different numbers of workers.
 -/
 import GunYu.Proofs.Rdb.Sync
+import GunYu.Proofs.Rdb.StreamNames
 
 namespace GunYu.Rdb
 open GunYu GunYu.RedisSem
@@ -85,7 +86,7 @@ theorem map_noSel {α : Type} (x : Option (List α)) (g : α → Cmd) (n : Bytes
   obtain ⟨a, _, rfl⟩ := List.mem_map.mp hc
   unfold noSel; rw [hg a]; exact hn
 
-theorem execCmd_noSel (x : XCfg) (p : PObj) (hns : otypeOf p.rtype ≠ some .stream) (cs : List Cmd)
+theorem execCmd_noSel (x : XCfg) (p : PObj) (cs : List Cmd)
     (h : execCmd x p = some cs) : ∀ c ∈ cs, noSel c := by
   unfold execCmd at h
   cases hot : otypeOf p.rtype with
@@ -108,7 +109,11 @@ theorem execCmd_noSel (x : XCfg) (p : PObj) (hns : otypeOf p.rtype ≠ some .str
         · cases h
         · exact map_noSel _ _ b!"ZADD" (fun _ => rfl) (by decide) cs h
     | hash => simp only [hot] at h; exact map_noSel _ _ b!"HSET" (fun _ => rfl) (by decide) cs h
-    | stream => exact absurd hot hns
+    | stream =>
+      simp only [hot] at h
+      intro c hc
+      rcases execStream_names _ _ _ _ _ h c hc with hn | hn | hn | hn <;>
+        (unfold noSel; rw [hn]; decide)
     | module => simp [hot] at h
     | function =>
       simp only [hot] at h
@@ -136,8 +141,8 @@ theorem rewriteCmd_name (src dst : Bytes) (c : Cmd) : (rewriteCmd src dst c).nam
 theorem noSel_name (c : Cmd) (n : Bytes) (hc : c.name = n) (h : lower n ≠ b!"select") : noSel c := by
   unfold noSel; rw [hc]; exact h
 
-theorem expandEntry_noSel (cfg : RCfg) (db : Int) (ex : Exists) (e : Entry) (ot : OType) (src : Bytes)
-    (hns : otypeOf e.obj.rtype ≠ some .stream) : ∀ c ∈ (expandEntry cfg db ex e ot src).1, noSel c := by
+theorem expandEntry_noSel (cfg : RCfg) (db : Int) (ex : Exists) (e : Entry) (ot : OType) (src : Bytes) :
+    ∀ c ∈ (expandEntry cfg db ex e ot src).1, noSel c := by
   have hprobe : ∀ c ∈ (if e.obj.firstBin then
       cmdB b!"exists" [e.key] :: (if ex.has db e.key then [cmdB b!"del" [e.key]] else []) else []), noSel c := by
     intro c hc
@@ -162,15 +167,15 @@ theorem expandEntry_noSel (cfg : RCfg) (db : Int) (ex : Exists) (e : Entry) (ot 
       rcases hc with (hc | hc) | hc
       · exact hprobe c hc
       · obtain ⟨c0, hc0, rfl⟩ := List.mem_map.mp hc
-        have := execCmd_noSel cfg.x e.obj hns cs hx c0 hc0
+        have := execCmd_noSel cfg.x e.obj cs hx c0 hc0
         unfold noSel at this ⊢
         rw [rewriteCmd_name]; exact this
       · split at hc
         · simp only [List.mem_singleton] at hc; subst hc; exact noSel_name _ b!"pexpire" rfl (by decide)
         · cases hc
 
-theorem replayEntry_noSel (cfg : RCfg) (D : Int) (ex : Exists) (e : Entry)
-    (hns : otypeOf e.obj.rtype ≠ some .stream) : ∀ c ∈ (replayEntry cfg D ex e).1, noSel c := by
+theorem replayEntry_noSel (cfg : RCfg) (D : Int) (ex : Exists) (e : Entry) :
+    ∀ c ∈ (replayEntry cfg D ex e).1, noSel c := by
   intro c hc
   unfold replayEntry at hc
   simp only at hc
@@ -182,9 +187,9 @@ theorem replayEntry_noSel (cfg : RCfg) (D : Int) (ex : Exists) (e : Entry)
       | none => simp [hx] at hc
       | some cs =>
         simp only [hx] at hc
-        exact execCmd_noSel cfg.x e.obj hns cs hx c hc
+        exact execCmd_noSel cfg.x e.obj cs hx c hc
     · split at hc
-      · exact expandEntry_noSel cfg D ex { e with key := dstKey cfg e.key } ot e.key hns c hc
+      · exact expandEntry_noSel cfg D ex { e with key := dstKey cfg e.key } ot e.key c hc
       · have hatt : ∀ (params : List Bytes), ∀ c ∈ (if ex.has D (dstKey cfg e.key)
             then [cmdB b!"restore" params, cmdB b!"restore" (params ++ [b!"REPLACE"])]
             else [cmdB b!"restore" params]), noSel c := by
@@ -198,14 +203,14 @@ theorem replayEntry_noSel (cfg : RCfg) (D : Int) (ex : Exists) (e : Entry)
         · simp only [List.mem_append] at hc
           rcases hc with hc | hc
           · exact hatt _ c hc
-          · exact expandEntry_noSel cfg D ex { e with key := dstKey cfg e.key } ot e.key hns c hc
+          · exact expandEntry_noSel cfg D ex { e with key := dstKey cfg e.key } ot e.key c hc
 
 /-! ## what one entry does, whichever worker it is routed to -/
 
 /-- the entries the comparison covers: an entry without a database is a function library
-    (what the loader produces); no stream values -/
+    (what the loader produces); values of EVERY kind, streams included (session 4) -/
 def EntryOk (e : Entry) : Prop :=
-  ((e.db = -1 ∧ e.obj.rtype = 0xF5) ∨ ∃ n : Nat, e.db = (n : Int)) ∧ otypeOf e.obj.rtype ≠ some .stream
+  (e.db = -1 ∧ e.obj.rtype = 0xF5) ∨ ∃ n : Nat, e.db = (n : Int)
 
 /-- worker-independent description of `workerStep`: the database the connection is switched
     to (`none`: it stays where it is), the requests issued there, the new existence table, success -/
@@ -271,7 +276,7 @@ theorem step_char (cfg : RCfg) (htick : cfg.tick = 0)
   by_cases hA : e.db ≠ -1 ∧ cfg.filterDb e.db = true
   · rw [workerStep_A cfg w ex e hA, entryEffect_A cfg ex e hA]
     exact ⟨rfl, rfl, [], by simp, rfl⟩
-  · rcases hok.1 with ⟨hm1, hrt⟩ | ⟨n, hn⟩
+  · rcases hok with ⟨hm1, hrt⟩ | ⟨n, hn⟩
     · -- a function library: no DB switch
       have hsel : afterSelect cfg w e = w := by simp [afterSelect, hm1]
       by_cases hk : cfg.filterKey e.key = true
@@ -309,7 +314,7 @@ theorem entryEffect_noSel (cfg : RCfg) (ex : Exists) (e : Entry) (hok : EntryOk 
   · rw [entryEffect_A cfg ex e hA]; intro c hc; cases hc
   · by_cases hk : cfg.filterKey e.key = true
     · rw [entryEffect_B cfg ex e hA hk]; intro c hc; cases hc
-    · rw [entryEffect_C cfg ex e hA hk]; exact replayEntry_noSel cfg _ ex e hok.2
+    · rw [entryEffect_C cfg ex e hA hk]; exact replayEntry_noSel cfg _ ex e
 
 theorem entryEffect_none_noop (cfg : RCfg) (ex : Exists) (e : Entry) (hok : EntryOk e)
     (hnone : (entryEffect cfg ex e).1 = none) (t : TState) :
@@ -320,7 +325,7 @@ theorem entryEffect_none_noop (cfg : RCfg) (ex : Exists) (e : Entry) (hok : Entr
     · rw [entryEffect_B cfg ex e hA hk]; rfl
     · rw [entryEffect_C cfg ex e hA hk] at hnone ⊢
       simp only at hnone ⊢
-      rcases hok.1 with ⟨hm1, hrt⟩ | ⟨n, hn⟩
+      rcases hok with ⟨hm1, hrt⟩ | ⟨n, hn⟩
       · obtain ⟨cs, hcs, hnn⟩ := replay_function cfg ((if e.db = -1 then none else some (mapDb cfg e.db) : Option Int).getD 0) ex e hrt
         rw [hcs]
         exact applyReqs_noop cs t hnn
@@ -381,7 +386,7 @@ def entriesOk (cfg : RCfg) : List Entry → Exists → Bool
   | [], _ => true
   | e :: es, ex => (entryEffect cfg ex e).2.2.2 && entriesOk cfg es (entryEffect cfg ex e).2.2.1
 
-theorem workerOf_lt (n : Nat) (e : Entry) (idx : Nat) (hn : 0 < n) : workerOf n e idx < n := by
+theorem workerOf_lt (cfg : RCfg) (n : Nat) (e : Entry) (idx : Nat) (hn : 0 < n) : workerOf cfg n e idx < n := by
   unfold workerOf; split <;> exact Nat.mod_lt _ hn
 
 theorem fanOut_dbs (cfg : RCfg) (htick : cfg.tick = 0)
@@ -396,9 +401,9 @@ theorem fanOut_dbs (cfg : RCfg) (htick : cfg.tick = 0)
   | cons e es ih =>
     intro hok idx ws ex M hn hcur
     have hoke := hok e (List.mem_cons_self ..)
-    have hlt := workerOf_lt ws.length e idx hn
+    have hlt := workerOf_lt cfg ws.length e idx hn
     simp only [fanOutTrace, fanOut, entriesDbs, entriesOk]
-    generalize hi : workerOf ws.length e idx = i at hlt ⊢
+    generalize hi : workerOf cfg ws.length e idx = i at hlt ⊢
     have hc := hcur i hlt
     obtain ⟨hres, _, _⟩ := step_char cfg htick hdb e hoke ex (ws.getD i {}) i M hc
     obtain ⟨hdbs, hcurs⟩ := step_M cfg htick hdb e hoke ex (ws.getD i {}) i M hc
@@ -457,12 +462,12 @@ theorem trace_ok {db : Nat} {items : List Item} {es : List Entry} (htr : Trace d
   | @aux db k v items es e hdb hrt _ ih =>
     intro hcar x hx
     rcases List.mem_cons.mp hx with rfl | hx
-    · exact ⟨Or.inr ⟨db, hdb⟩, by rw [hrt]; decide⟩
+    · exact Or.inr ⟨db, hdb⟩
     · exact ih (fun x hx => hcar x (List.mem_cons_of_mem _ hx)) x hx
   | @function db code items es e hdb hrt _ ih =>
     intro hcar x hx
     rcases List.mem_cons.mp hx with rfl | hx
-    · exact ⟨Or.inl ⟨hdb, hrt⟩, by rw [hrt]; decide⟩
+    · exact Or.inl ⟨hdb, hrt⟩
     · exact ih (fun x hx => hcar x (List.mem_cons_of_mem _ hx)) x hx
   | @key db k items ces es hke _ ih =>
     intro hcar x hx
@@ -470,13 +475,9 @@ theorem trace_ok {db : Nat} {items : List Item} {es : List Entry} (htr : Trace d
     · obtain ⟨hk, _, _⟩ := hcar (.key k) (List.mem_cons_self ..)
       rcases hke with ⟨e, rfl, he, hobj⟩ | ⟨f, its, e0, tl, _, hces, hc, _⟩
       · simp only [List.mem_singleton] at hx; subst hx
-        refine ⟨Or.inr ⟨db, he.2.1⟩, ?_⟩
-        rw [hobj]
-        show otypeOf k.obj.rtype ≠ _
-        rw [otypeOf_rtype k.obj hk]
-        intro h; exact otOf_ne_stream k.obj (Option.some.inj h)
+        exact Or.inr ⟨db, he.2.1⟩
       · have := hc x hx
-        exact ⟨Or.inr ⟨db, this.1.2.1⟩, by rw [this.2.2.1]; decide⟩
+        exact Or.inr ⟨db, this.1.2.1⟩
     · exact ih (fun x hx => hcar x (List.mem_cons_of_mem _ hx)) x hx
 
 /-! ## schedules and the per-worker logs -/
@@ -518,7 +519,7 @@ theorem trace_tag_lt (cfg : RCfg) (es : List Entry) : ∀ (idx : Nat) (ws : List
     intro idx ws ex hn p hp
     simp only [fanOutTrace] at hp
     rcases List.mem_cons.mp hp with rfl | hp
-    · exact workerOf_lt _ _ _ hn
+    · exact workerOf_lt _ _ _ _ hn
     · split at hp
       · have := ih _ _ _ (by simp; exact hn) p hp
         simpa using this
